@@ -309,6 +309,7 @@ type caseRun struct {
 	maxBatch int
 	maxMsg   int
 	nUpd     int
+	mode     int // 0 normal, 1 statuses only, 2 mostly no-op updates, 3 update lists of exactly MaxBatchSize (+0/+1/x2)
 	connID   uint64
 }
 
@@ -320,6 +321,9 @@ func (c *caseRun) genUpdate() api.Update {
 	if r.pct(40) {
 		ki = r.intn(3) // concentrate on a few keys so that histories per key are long
 	}
+	if c.mode == 2 {
+		ki = 0
+	}
 	k := c.keys[ki]
 	c.rev++
 	rev := strconv.Itoa(c.rev)
@@ -327,6 +331,16 @@ func (c *caseRun) genUpdate() api.Update {
 	u := api.Update{KVPair: model.KVPair{Key: k.key, Revision: rev}}
 	if r.pct(8) {
 		u.TTL = time.Duration(1+r.intn(2)) * time.Second
+	}
+	if c.mode == 2 && r.pct(85) {
+		// the same value again and again: every one but the first is skipped by the cache
+		u.Value = mkValue(k, 0, rev)
+		u.UpdateType = api.UpdateTypeKVUpdated
+		if !ex {
+			u.UpdateType = api.UpdateTypeKVNew
+		}
+		c.exists[ki] = 0
+		return u
 	}
 	switch p := r.intn(100); {
 	case p < 80: // what a healthy syncer sends
@@ -417,7 +431,7 @@ func (c *caseRun) push(forceStatus bool) {
 	}
 	var evs []string
 	for e := 0; e < nev; e++ {
-		if forceStatus || r.pct(22) {
+		if forceStatus || r.pct(22) || c.mode == 1 {
 			forceStatus = false
 			s := c.nextStatus()
 			c.status = s
@@ -426,7 +440,13 @@ func (c *caseRun) push(forceStatus bool) {
 			continue
 		}
 		n := 1 + r.intn(3)
-		if r.pct(15) {
+		if c.mode == 3 {
+			mb := c.maxBatch
+			if mb == 0 || mb > 8 {
+				mb = 8
+			}
+			n = []int{mb, mb + 1, 2 * mb, 2*mb + 1}[r.intn(4)]
+		} else if r.pct(15) {
 			n = 4 + r.intn(9)
 			c.tag("push:large-update-list")
 		}
@@ -631,6 +651,19 @@ func runCase(t *testing.T, seed uint64) vline {
 		c.maxMsg = []int{1, 2, 3, 5, 100, 0}[r.intn(6)] // 0 = default (100)
 		c.tag(fmt.Sprintf("cfg:maxBatch=%d", c.maxBatch))
 		c.tag(fmt.Sprintf("cfg:maxMsg=%d", c.maxMsg))
+		switch p := r.intn(100); {
+		case p < 4:
+			c.mode = 1
+			c.tag("stream:statuses-only")
+		case p < 10:
+			c.mode = 2
+			c.tag("stream:mostly-noop")
+		case p < 18:
+			c.mode = 3
+			c.tag("stream:exact-batch-multiples")
+		default:
+			c.tag("stream:mixed")
+		}
 		c.cache = snapcache.New(snapcache.Config{MaxBatchSize: c.maxBatch, WakeUpInterval: 1000 * time.Hour, Name: "felix"})
 		c.first = c.cache.CurrentBreadcrumb()
 		c.srv = New(map[syncproto.SyncerType]BreadcrumbProvider{syncproto.SyncerTypeFelix: c.cache}, Config{
